@@ -221,7 +221,7 @@ PROPS = {
             "Xet.Shard.C05_truthful_index", "Xet.Shard.C05_direct", "Xet.Shard.C05_disk", "Xet.Shard.C05_first_n",
             "Xet.Shard.C05_disk_wf", "Xet.Shard.C05_disk_wf_candidates",
         ],
-        "suites": ["shard"],
+        "suites": ["shard", "manager"],
         "level_text": "In-memory index: for every shard reachable from the empty one by add_cas_block / add_file_reconstruction_info / union / "
                       "difference the lookup-map invariant holds and every answer (n, fse) has 1 <= n <= |q|, fse.end = fse.start + n <= |X.chunks|, "
                       "X.chunks[start+i].hash = q[i], fse.bytes = sum of those lengths. On-disk readers: for EVERY byte string, footer, HMAC key and "
@@ -341,7 +341,7 @@ PROPS = {
     "C11": {
         "modules": ["XetProps.C11"],
         "theorems": ["Xet.Dedup.C11_recorded", "Xet.Dedup.C11_recorded_always", "Xet.Dedup.C11_chunks_recorded"],
-        "suites": ["session"],
+        "suites": ["session", "manager"],
         "level_text": "For every history, legal or not: every xorb handed to the store (cut mid-file or from the session aggregator, incl. the final "
                       "one) has its CAS info registered with the session shard, and every chunk of it is in that info. The second half (a later session "
                       "finds it and transfers no new chunk bytes) goes through ShardFileManager, which is not modelled in this revision: it is checked "
@@ -544,7 +544,7 @@ PROPS = {
             "Xet.Shard.C18_dedup_truthful",
             "Xet.Shard.C18_dedup_truthful_raw",
         ],
-        "suites": ["keyed"],
+        "suites": ["keyed", "manager"],
         "level_text": "For every well-formed shard, key, time and all eight include-flag combinations: exportKeyed(serialize m) equals the closed-form "
                       "serialization with every chunk hash in the xorb lists and the chunk table replaced by its keyed form (zero key = identity), "
                       "xorb and file hashes kept, file records kept or dropped as requested, tables present as requested, footer key/creation/"
